@@ -1,6 +1,7 @@
 import BR.Lemmas.BlobWrite
 import BR.Lemmas.Toy
 import BR.Bridge.Blob
+import BR.Lemmas.ProtoRead
 /-!
 # C02 — CAS reads return exactly the stored bytes on every path, offset and encoding
 
@@ -68,6 +69,51 @@ theorem size_mismatch_is_error (C : Codec) (file : Bytes) (h : Header) (hp : par
   unfold readRaw readZstd
   simp [hp, bind, Res.bind, hne, hmis]
 
+/-! ### ByteStream.Read: range checks and `read_limit` (model M10) -/
+
+open BR.Proto in
+/-- **every offset within the blob is readable**: for a well-formed resource name of a present
+blob, any `read_offset` with `0 ≤ offset ≤ size` and any admissible `read_limit` (non-negative; 0
+for compressed-blobs names) is answered with data or an empty success, never with an error -/
+theorem read_within_range_is_served (split : String → List String) (present : String → Int → Bool)
+    (name hash : String) (size : Int) (z : Bool) (offset limit : Int)
+    (hp : parseRead (split name) = .ok (hash, size, z)) (hpres : present hash size = true)
+    (ho : 0 ≤ offset ∧ offset ≤ size) (hl : 0 ≤ limit) (hz : z = true → limit = 0) :
+    readPre split present name offset limit = .stream ∨ readPre split present name offset limit = .empty ∨
+      readPre split present name offset limit = .emptyZstd := by
+  unfold readPre
+  rw [hp]
+  simp only
+  by_cases hs : size = 0
+  · simp only [hs, if_true]; cases z <;> simp
+  · have h1 : ¬ offset < 0 := by omega
+    have h2 : ¬ (z = true ∧ limit ≠ 0) := by rintro ⟨a, b⟩; exact b (hz a)
+    have h3 : ¬ limit < 0 := by omega
+    have h4 : ¬ offset > size := by omega
+    simp only [hs, if_false, h1, h2, h3, h4, hpres, if_true]
+    by_cases he : offset = size
+    · simp only [he, if_true]; cases z <;> simp
+    · simp [he]
+
+open BR.Proto in
+/-- **the empty blob is readable on an empty cache**, plain and compressed -/
+theorem empty_blob_read (split : String → List String) (present : String → Int → Bool) (name hash : String) (z : Bool)
+    (offset limit : Int) (hp : parseRead (split name) = .ok (hash, 0, z)) :
+    readPre split present name offset limit = (if z then .emptyZstd else .empty) := by
+  unfold readPre; rw [hp]; simp
+
+open BR.Proto in
+/-- **a non-zero `read_limit` is never exceeded**, whatever sizes the blob reader hands out; what is
+delivered is a prefix of the reader's output; everything is delivered when it fits; without a
+limit everything is delivered -/
+theorem read_limit_respected (limit : Int) (hl : 0 ≤ limit) (reads : List Nat) :
+    ((sendLoop true limit reads).1 : Int) ≤ limit ∧
+    (∃ k, k ≤ reads.length ∧ (sendLoop true limit reads).1 = (reads.take k).sum) ∧
+    ((reads.sum : Int) ≤ limit → sendLoop true limit reads = (reads.sum, true)) ∧
+    sendLoop false limit reads = (reads.sum, true) :=
+  ⟨sendLoop_le_limit reads limit hl, sendLoop_prefix true reads limit, sendLoop_all_when_fits reads limit,
+    sendLoop_unlimited reads limit⟩
+
 /-! non-vacuity: the toy codec satisfies the laws, and a concrete two-chunk file is conformant -/
 example : ToyU.codec.Lawful := ToyU.lawful
 
@@ -81,4 +127,7 @@ example : readRaw ToyU.codec
 #print axioms write_then_read
 #print axioms readers_total
 #print axioms size_mismatch_is_error
+#print axioms read_within_range_is_served
+#print axioms empty_blob_read
+#print axioms read_limit_respected
 end BR.Props.C02
